@@ -51,7 +51,7 @@ def metaStr (t : String) : String :=
 
 def podOfFields (f : List String) : Pod :=
   { name := fieldAt f 0, ns := fieldAt f 1, uid := fieldAt f 2, sa := fieldAt f 3, node := fieldAt f 4,
-    failed := fieldAt f 5 == "F" }
+    phase := fieldAt f 5 }
 
 def trustedOf (t : String) : String × String :=
   match t.splitOn "/" with
@@ -59,15 +59,29 @@ def trustedOf (t : String) : String × String :=
   | ns :: rest => (ns, "/".intercalate rest)
   | [] => ("", "")
 
-def clustersOf : List String → List (String × List Pod)
-  | id :: pods :: rest => (dec id, (decList pods).map (fun p => podOfFields (decFields p))) :: clustersOf rest
+def podsOf (tok : String) : List Pod := (decList tok).map (fun p => podOfFields (decFields p))
+
+def clustersOf : List String → List (String × Slot)
+  | id :: pods :: rest => (dec id, { cur := some { pods := podsOf pods } }) :: clustersOf rest
   | _ => []
+
+def updCluster (id : String) (f : Slot → Slot) : List (String × Slot) → List (String × Slot)
+  | [] => []
+  | (k, v) :: rest => if k = id then (k, f v) :: rest else (k, v) :: updCluster id f rest
+
+/-- apply a transition to the slot of a cluster ID (an absent ID has the empty slot) -/
+def onSlot (id : String) (f : Slot → Slot) (l : List (String × Slot)) : List (String × Slot) :=
+  if l.any (fun kv => kv.1 == id) then updCluster id f l else l ++ [(id, f {})]
+
+/-- pod events reach the informer of the component that is `clusters[id]` -/
+def onCurPods (f : List Pod → List Pod) (s : Slot) : Slot :=
+  { s with cur := s.cur.map (fun c => { c with pods := f c.pods }) }
 
 structure DState where
   clock    : Int := 0
   ca       : Option CA := none
   trusted  : List (String × String) := []
-  clusters : List (String × List Pod) := []
+  clusters : List (String × Slot) := []
   naSet    : Bool := false
 
 def showIssue (srv : Server) (req : Request) (r : Resp CertData) : String :=
@@ -104,7 +118,27 @@ def stepIssue (d : DState) (toks : List String) : DState × String :=
     match newIstioCA b (parseInt dflt * sec) (parseInt mx * sec) d.clock with
     | none => ({ d with ca := none, clock := d.clock + sec }, "ca-err")
     | some ca => ({ d with ca := some ca, clock := d.clock + sec }, "ca-ok")
-  | "na" :: rest =>
+  | ["pod", "add", cl, pod] =>
+    let p := podOfFields (decFields (dec pod))
+    let cs := onSlot (dec cl) (onCurPods (fun ps => ps ++ [p])) d.clusters
+    ({ d with clusters := cs }, "ev-ok")
+  | ["pod", "del", cl, ns, name] =>
+    let cs := onSlot (dec cl) (onCurPods (fun ps => ps.filter (fun p => !(p.ns == dec ns && p.name == dec name)))) d.clusters
+    ({ d with clusters := cs }, "ev-ok")
+  | ["cl", "upd", id, pods, run] =>
+    let cs := onSlot (dec id) (fun s => if run == "1" then (s.updated (podsOf pods)).synced else s.updated (podsOf pods)) d.clusters
+    ({ d with clusters := cs }, "ev-ok")
+  | ["cl", "sync", id] =>
+    -- the harness starts the client of a still pending update (none after the cluster was deleted)
+    let cs := onSlot (dec id) (fun s => if s.cur.any (fun c => !c.synced) then s.synced else s) d.clusters
+    ({ d with clusters := cs }, "ev-ok")
+  | ["cl", "del", id] =>
+    let cs := onSlot (dec id) (Slot.deleted repoFixes.swapCleanup) d.clusters
+    ({ d with clusters := cs }, "ev-ok")
+  | ["cl", "add", id, pods] =>
+    let cs := onSlot (dec id) (fun s => s.added (podsOf pods)) d.clusters
+    ({ d with clusters := cs }, "ev-ok")
+  | "nap" :: rest | "na" :: rest =>
     match rest with
     | trusted :: _n :: cl =>
       ({ d with naSet := true, trusted := (decList trusted).map trustedOf, clusters := clustersOf cl }, "na-ok")
